@@ -64,6 +64,7 @@ type channel struct {
 	recvWait int            // number of receivers currently blocked
 	vc       vclock
 	never    bool // timer channel that never fires
+	mayFire  bool // timer channel that may fire: decided (forked) when a select first looks at it
 }
 
 type pendingSend struct {
@@ -578,6 +579,16 @@ func doSelect(fr *frame, instr *ssa.Select) value {
 		}
 	}
 	i.yield("select", selObjs...)
+	// a timer that may fire: fork now on "it has fired by the time of this select" / "it never fires"
+	for _, s := range instr.States {
+		if ch, _ := fr.get(s.Chan).(*channel); ch != nil && ch.mayFire {
+			ch.mayFire = false
+			if i.choose(2) == 1 {
+				ch.never = false
+				ch.buf = append(ch.buf, zero(ch.elem))
+			}
+		}
+	}
 	type st struct {
 		ch   *channel
 		send bool
